@@ -31,6 +31,7 @@ def _vc_component(R: Report, pid: str, tier: str, only=None):
     ckey = _cache_key(eng, tier)
     cdir = os.path.join(VERIF, ".cache", "vc", ckey)
     os.makedirs(cdir, exist_ok=True)
+    _prune(os.path.dirname(cdir), keep=12)
     records, undecided_all = [], []
     mods = set()
     todo = []
@@ -188,6 +189,17 @@ TAG_TEXT = {
     "AX_concurrent_futures": "as_completed yields every submitted future exactly once in some order; Future.result() returns the callable's value",
     "AX_numpy_average_is_a_function_of_the_elements": "np.average is a deterministic function of the sequence's elements",
 }
+
+
+def _prune(d, keep):
+    """keep the most recently used entries of a cache directory"""
+    try:
+        ents = sorted((os.path.join(d, x) for x in os.listdir(d)), key=os.path.getmtime, reverse=True)
+        import shutil
+        for old in ents[keep:]:
+            shutil.rmtree(old, ignore_errors=True) if os.path.isdir(old) else os.unlink(old)
+    except OSError:
+        pass
 
 
 def _cache_key(eng, tier):
